@@ -179,6 +179,57 @@ def fieldless_variant(v):
 _VIDX = {}
 
 
+def is_system_rule(F, R):
+    """`is_system(level)` - the test the parser, the level matcher and the validators share for "this level starts with `$`"
+    (4.7.2) - is evaluated on sample level texts: it must answer exactly `text begins with '$'` (a lone `$` included)."""
+    from symex import bytes_model
+    b = F.one(r'^topic::is_system$')
+    samples = ['', '$', '$a', '$SYS', '$$', 'a', 'a$', 'SYS$x', '+', '#', ' $', '\u00e9$', '$\u00e9']
+    bad, unknown = [], []
+    for text in samples:
+        res = set()
+        for p in SymEx(b, F, call_model=bytes_model, arg_values={1: ('ref', ('bytes', text.encode()))}, max_paths=200).run():
+            if p.end[0] in ('return',):
+                res.add(p.ret[1] if p.ret and p.ret[0] == 'const' and not [c for c in p.conds if c[0][0] != 'assert'] else None)
+            elif p.end[0] not in ('unreachable', 'infeasible'):
+                res.add(None)
+        if len(res) != 1 or None in res:
+            unknown.append(text)
+        elif bool(res.pop()) != text.startswith('$'):
+            bad.append(text)
+    if unknown and not bad:
+        R.undecided('C18.match-table', 'is_system|true-exactly-for-texts-beginning-with-$', 'the body of is_system could not be evaluated for %s' % unknown[:4], b.loc(0))
+    else:
+        R.ob('C18.match-table', 'is_system|true-exactly-for-texts-beginning-with-$', not bad,
+             'is_system() answers wrongly for the level text(s) %s: topics / filters whose first level is such a text are no longer kept apart from ordinary ones (wildcards match them, the parser stores a Normal level)' % bad[:4], b.loc(0))
+
+
+def constructed_only_validated(F, R):
+    """A TopicFilter can be built from caller-supplied levels only through the structural validator: every place that builds
+    the (private) tuple struct - outside the derived Clone / Deserialize impls - hands the value to TopicFilter::is_valid and
+    returns it only on the `true` edge. A second entry point with checks of its own lets a sequence in that the string parser
+    and the other constructors refuse (`#` that is not last, `$..` that is not first)."""
+    n = 0
+    for b in F.bodies.values():
+        for bi, j, s in agg_sites(b, r'^topic::TopicFilter$'):
+            if s.get('mac'):
+                continue   # derive(Clone) copies a value that exists; derive(Deserialize) is outside the property (serde input)
+            n += 1
+            gates = []
+            for vb, t in b.calls_to(r'^topic::TopicFilter::is_valid$'):
+                if any(l[0] == 'agg' and l[1].startswith('topic::TopicFilter') and l[2] == bi for l in Origin(b).of_operand(t['args'][0])):
+                    r = call_bool_branch(b, vb)
+                    if r and r[0] != 'discr':
+                        gates.append((r[0], r[1]))
+            oks = [ob for ob, oj, os_ in agg_sites(b, r'^std::result::Result$', 'Ok') if ob in b.reachable(bi)]
+            rets = [rb for rb in b.returns() if rb in b.reachable(bi)]
+            ok = bool(gates) and bool(oks) and all(any(edge_dominates(b, sb, tb, ob) for sb, tb in gates) for ob in oks) and \
+                all(re.search(r'^std::result::Result<topic::TopicFilter, ', b.local_ty(0) or '') for _ in rets)
+            R.ob('C18.parse-table', '%s|built-value-returned-only-when-is_valid()' % re.sub(r'^<topic::TopicFilter as (.*)>::', r'\1::', b.path), ok,
+                 'a TopicFilter is built here and handed out without passing TopicFilter::is_valid on the true edge: this entry point accepts level sequences the other constructors refuse', b.loc(bi))
+    R.floor('C18.parse-table', 'TopicFilter construction sites', n, 1)
+
+
 def atom_model(nm, args, t, path):
     base = nm.split('::')[-1]
     if base in ('eq', 'ne') and len(args) == 2:
@@ -954,6 +1005,8 @@ def run(F, R):
     level_validity(F, R)
     valid_dfa(F, R)
     match_tables(F, R)
+    is_system_rule(F, R)
+    constructed_only_validated(F, R)
     match_loop(F, R)
     parse_table(F, R)
     display_table(F, R)
